@@ -45,10 +45,12 @@ def rule_I1(ctx) -> None:
     # name takes is selected with the analyser's evaluator; decisive when every name evaluates
     import keyword as _kw
     from .. import concrete
-    probes = ["None", "True", "False", "class", "import", "lambda", "in", "Class", "IMPORT", "none", "foo", "foo_", "_foo", "Foo", "x1", "1x", "", "a-b", "a b", "9"]
+    probes = sorted(_kw.kwlist) + ["Class", "IMPORT", "none", "foo", "foo_", "_foo", "Foo", "x1", "1x", "", "a-b", "a b", "9"]
+    module_consts = {k: v for k, v in cas.consts.items() if isinstance(v, (str, int, frozenset, tuple)) and type(v).__name__ not in ("SymName", "SymCall", "SymLambda")}
     bad_probe = unknown_probe = None
     for name_ in probes:
-        env = {p0: name_}
+        env = dict(module_consts)
+        env[p0] = name_
         sel = []
         try:
             for p in paths:
